@@ -65,6 +65,60 @@ def regenerate(broken):
     return meta
 
 
+SUB_NAMES = ("clz32", "clz64", "clo32", "clo64", "revbit16", "revbit32", "revbit64", "fbrev", "conv_round", "fcirc_add", "trap", "set_usr_field", "get_usr_field")
+
+
+def _sexp(term):
+    toks = re.findall(r'"[^"]*"|\(|\)|[^\s()]+', term)
+    pos = 0
+
+    def rd():
+        nonlocal pos
+        t = toks[pos]
+        pos += 1
+        if t == "(":
+            l = []
+            while toks[pos] != ")":
+                l.append(rd())
+            pos += 1
+            return l
+        return t
+    return rd()
+
+
+def construct_present(name: str, ast_txt: str) -> bool:
+    """syntactic classes of constructs used by class-level findings"""
+    if name == "side-effect-in-cond-arm":
+        # a ?: with a NON-constant condition one of whose arms contains a postfix ++/--, an assignment or a sub-routine call
+        # that is not wrapped in a statement-expression
+        try:
+            tree = _sexp(ast_txt)
+        except Exception:
+            return False
+
+        def has_effect(x):
+            if not isinstance(x, list):
+                return False
+            if x and x[0] in ("EPost", "EAssign"):
+                return True
+            if x and x[0] == "ECall" and len(x) > 1 and x[1].strip('"') in SUB_NAMES:
+                return True
+            if x and x[0] == "EStmtExpr":
+                return False
+            return any(has_effect(y) for y in x)
+
+        def walk(x):
+            if not isinstance(x, list):
+                return False
+            if x and x[0] == "ECond" and len(x) == 4:
+                const = isinstance(x[1], list) and x[1] and x[1][0] == "EOp" and isinstance(x[1][1], list) and x[1][1][0] == "ONum"
+                if not const and (has_effect(x[2]) or has_effect(x[3])):
+                    return True
+            return any(walk(y) for y in x)
+        return walk(tree)
+    return False
+
+
 def sym_lookup(known_sym: dict, c: str):
     """exact symptom class, else a listed pattern with `*` (e.g. linear:DPure:*:raw=0)"""
     if c in known_sym:
@@ -222,6 +276,19 @@ def run(spec: Spec, tier: str) -> int:
         for jid, b in k2r.bodies.items():
             if getattr(b, "invalid_names", None) and allp[int(jid.split(":")[1])] not in known_codes:
                 fails.append((jid, allp[int(jid.split(":")[1])], ["malformed-text: invalid C identifiers " + ", ".join(b.invalid_names)], {"flags": 0}))
+    # construct classes: a differential failure of a program that contains the construct a listed finding names (and whose
+    # witness still fails) belongs to that finding; any other failing program is reported
+    klass_known = [k for k in known if k.get("construct_class")]
+    if klass_known and fails:
+        keep = []
+        for jid, code, of, v in fails:
+            ast_txt = (k2r.results.get(jid) or {}).get("ast") or ""
+            hit = next((k for k in klass_known if set(of) <= {"diff"} and construct_present(k["construct_class"], ast_txt)), None) if ast_txt else None
+            if hit:
+                res.known(f"{hit['id']}: {hit['what']} -- construct class {hit['construct_class']}, e.g. {hit['witness'].get('code', code)}")
+            else:
+                keep.append((jid, code, of, v))
+        fails[:] = keep
     # symptom classes: a wf / linear failure whose symptoms are all listed (known_findings 'symptom') is a known finding
     known_sym = {k["symptom"]: k for k in known if "symptom" in k}
     if known_sym and fails:
